@@ -279,6 +279,9 @@ def flag(ctx, cfg, fs):
                 src = provenance(body, r.call.args[0], r.call.bb, 'term')
                 if any(q.kind == 'call' and q.call.bb in envb for q in src):
                     tests.append((s_, r.call.is_(r'::is_none$')))
+            elif r.kind == 'call' and r.call.bb in envb and r.call.is_(r'Iterator>?::(any|all)$') and not r.path:
+                # `env.iter().any(|name| var_os(name).is_some())`: the lookup answers the question itself
+                tests.append((s_, r.call.is_(r'::all$')))
     others = [i for i, k, st in body.stmts() if st['k'] == 'assign' and st['lhs'] == [0, []] and st['rv']['k'] == 'agg' and st['rv'].get('variant') in ('Ok', 'Err') and i not in present_ok]
     conv = bool(tests) and bool(others) and all(any(only_via_edge(body, t_.b, t_.target(neg), o) for (t_, neg) in tests) for o in others)
     ctx.ob('F.flag-precedence', 'ParseFlag::eval:absent-outcomes-need-unset-variable', conv,
